@@ -265,7 +265,7 @@ impl Ctx {
             Ok(v) => Ok(v),
             Err(_) => {
                 let (loc, msg) = take_panic().unwrap_or_default();
-                Err(Fail { class: Class::Panic, sig: format!("{tag}@{loc}"), msg: format!("{tag}: unexpected panic at {loc}: {msg}") })
+                Err(Fail { class: Class::Panic, sig: loc.clone(), msg: format!("{tag}: unexpected panic at {loc}: {msg}") })
             }
         }
     }
